@@ -86,8 +86,13 @@ def run_unit(u: Unit, excluded: frozenset, procs: int = 16) -> Outcome:
         if u.replay is not None:
             try:
                 out.replayed = u.replay(out.cex)
-            except Exception:
-                out.error = "replay crashed: " + traceback.format_exc(limit=6)
+            except Exception as ex:
+                # the symbolic run ended in an undeclared exception and the concrete replay of the real code raises
+                # the same exception type: that is a reproduction; anything else is a harness problem (exit 3)
+                if out.cex_kind.startswith(f"exception {type(ex).__name__}:"):
+                    out.replayed = f"real code raises {type(ex).__name__}: {ex}"
+                else:
+                    out.error = "replay crashed: " + traceback.format_exc(limit=6)
         else:
             out.error = "no replay function"
     return out
